@@ -30,7 +30,7 @@ ASSUMPTIONS = [
     'an unknown at-rule is legitimately kept in the DOM: nodes carrying the marker are subtracted before comparing',
     'a misplaced @import/@charset/@namespace is expected to vanish entirely',
 ]
-MIN_EVENTS = {'quick': {'oracle.injection': 12000, 'oracle.truncation': 15000}, 'thorough': {'oracle.injection': 300000, 'oracle.truncation': 400000}}
+MIN_EVENTS = {'quick': {'oracle.injection': 12000, 'oracle.truncation': 15000, 'oracle.truncation-closing': 5000}, 'thorough': {'oracle.injection': 300000, 'oracle.truncation': 400000}}
 
 # ---- garbage --------------------------------------------------------------------------------------------
 # (template, starts-with tag); {m} = marker ident
@@ -310,6 +310,162 @@ def judge_truncation(ctx, cssutils, parser, stmts, rng, all_cuts):
         ctx.seen(['cut', core.h8(text), cut])
 
 
+def closers(prefix):
+    """the text that closes every construct open at the end of `prefix` (CSS 2.1 4.2: at the end of the style sheet all open
+    constructs are closed), or None where that is not a plain suffix (inside an escape, an unquoted url, a CDO/at-keyword)"""
+    stack = []
+    i, n = 0, len(prefix)
+    quote = None
+    while i < n:
+        ch = prefix[i]
+        if quote:
+            if ch == '\\':
+                if i + 1 >= n:
+                    return None
+                i += 2
+                continue
+            if ch in '\n\r\f':
+                quote = None  # unterminated string ends at the line end
+            elif ch == quote:
+                quote = None
+        elif ch == '\\':
+            if i + 1 >= n:
+                return None
+            i += 2
+            continue
+        elif prefix.startswith('/*', i):
+            j = prefix.find('*/', i + 2)
+            if j < 0:
+                return '*/' + ''.join(reversed(stack)) if not prefix.endswith('*') or prefix.endswith('/*') else None
+            i = j + 2
+            continue
+        elif ch in '"\'':
+            quote = ch
+        elif prefix[i : i + 4].lower() == 'url(' and (i == 0 or not (prefix[i - 1].isalnum() or prefix[i - 1] in '-_')):
+            j = i + 4
+            while j < n and prefix[j] in ' \t\n\r\f':
+                j += 1
+            if j >= n:
+                return None
+            if prefix[j] not in '"\'':
+                k = prefix.find(')', j)
+                if k < 0:
+                    return None  # inside an unquoted url
+                i = k + 1
+                continue
+            stack.append(')')
+            i = j
+            continue
+        elif ch in '({[':
+            stack.append({'(': ')', '{': '}', '[': ']'}[ch])
+        elif ch in ')}]':
+            if stack and stack[-1] == ch:
+                stack.pop()
+        i += 1
+    if prefix and (prefix[-1].isalnum() or prefix[-1] in '-_@#.!<-' or ord(prefix[-1]) > 127):
+        return None  # the cut may be inside a name, number or keyword: appending closers would not be a pure closing
+    return (quote or '') + ''.join(reversed(stack))
+
+
+def items_equal_but_last_decl(x, y):
+    """two item lists are equal, or differ only in the declaration that was being written when the input ended"""
+    x, y = list(x), list(y)
+    if x == y:
+        return True
+
+    def drop(z):
+        return z[:-1] if z and z[-1] and z[-1][0] == 'decl' else None
+
+    dx, dy = drop(x), drop(y)
+    return (dx is not None and dx == y) or (dy is not None and x == dy) or (dx is not None and dy is not None and dx == dy)
+
+
+def closing_equal(a, b):
+    """what closing at the end of input must not change: every rule but the last completely; of the last one its kind, prelude and
+    all declarations but the final one (whether an unfinished value like 'calc(' still makes a declaration is not fixed by the
+    rule); unknown at-rules literally"""
+    a, b = norm(a), norm(b)
+    if a == b:
+        return True
+    if len(a) != len(b) or a[:-1] != b[:-1]:
+        # the last rule itself may exist on one side only when nothing of it but an unfinished declaration was there
+        # (whether the construct that was being written when the input ended still makes a rule is not fixed by the property:
+        # '@x ' is a rule at the end of input but '@x }' is not; cssutils drops an unknown at-rule cut inside a nested block)
+        if len(a) == len(b) + 1 and a[:-1] == b:
+            return True
+        if len(b) == len(a) + 1 and b[:-1] == a:
+            return True
+        return False
+
+    def last_equal(r, q):
+        if r[0] != q[0]:
+            return False
+        k = r[0]
+        if k == 'style':
+            return r[1] == q[1] and items_equal_but_last_decl(r[2], q[2])
+        if k == 'fontface':
+            return items_equal_but_last_decl(r[1], q[1])
+        if k == 'page':
+            if r[1] != q[1]:
+                return False
+            if r[3] or q[3]:
+                if r[2] != q[2] or len(r[3]) != len(q[3]) or r[3][:-1] != q[3][:-1]:
+                    return False
+                return r[3][-1][0] == q[3][-1][0] and items_equal_but_last_decl(r[3][-1][1], q[3][-1][1])
+            return items_equal_but_last_decl(r[2], q[2])
+        if k == 'media':
+            if r[1] != q[1]:
+                return False
+            return closing_equal(r[2], q[2])
+        return r == q
+
+    return last_equal(a[-1], b[-1])
+
+
+MIXED = ['@keyframes k{from{a:calc(1px + (2px * [3', '@supports (a:b) and (c:f(1,[2,{3', '@x y{z:f([1,(2', '@font-feature-values f{@styleset{a:(1 [2', '@media print{@x{a:f(1,[2',
+         'a{b:f([1,(2', '@page{@top-left{content:f((1,[2', 'a[b="c"]{d:e(f[g(h', '@x (a[b{c(d', '@import url("a.css") (min-width:calc(1px + [2']  # fmt: skip
+
+
+def judge_closing(ctx, cssutils, parser, text):
+    """a sheet cut anywhere parses like the same prefix with every open construct closed explicitly"""
+    for cut in range(1, len(text) + 1):
+        prefix = text[:cut]
+        cl = closers(prefix)
+        if not cl:
+            continue
+        ctx.count('evaluations')
+        ctx.count('oracle.truncation-closing')
+        case = {'kind': 'closing', 'prefix': prefix, 'closers': cl}
+        try:
+            core.canonical_state(cssutils)
+            a = norm(P.project(parser.parseString(prefix)))
+            b = norm(P.project(parser.parseString(prefix + cl)))
+        except Exception as e:
+            ctx.violation('truncation.exception', case, {'tb': core.short_tb(e)}, site=core.raise_site(e))
+            continue
+        if not closing_equal(a, b):
+            ctx.violation('truncation.closing', case, {'diff': P.diff(a, b)})
+            break
+        # what is kept of the cut construct is kept in closed form: it survives serialise + parse, and an unknown at-rule (opaque
+        # text that is simply closed) reads like the explicitly closed one
+        try:
+            s1 = parser.parseString(prefix)
+            s2 = parser.parseString(prefix + cl)
+            again = parser.parseString(s1.cssText)
+        except Exception as e:
+            ctx.violation('truncation.exception', case, {'tb': core.short_tb(e), 'stage': 'serialise'}, site=core.raise_site(e))
+            continue
+        n1 = [type(r).__name__ for r in s1.cssRules if r.cssText]
+        n3 = [type(r).__name__ for r in again.cssRules]
+        if n1 != n3:
+            ctx.violation('truncation.closing', case, {'what': 'the DOM of the cut text does not survive serialise + parse', 'rules': n1, 'after': n3, 'text': s1.cssText.decode('utf-8', 'replace')[-200:]})
+            break
+        if len(s1.cssRules) and len(s1.cssRules) == len(s2.cssRules) and type(s1.cssRules[-1]).__name__ == 'CSSUnknownRule' == type(s2.cssRules[-1]).__name__:
+            if s1.cssRules[-1].cssText != s2.cssRules[-1].cssText:
+                ctx.violation('truncation.closing', case, {'what': 'unknown at-rule closed differently', 'cut': s1.cssRules[-1].cssText[-120:], 'closed': s2.cssRules[-1].cssText[-120:]})
+                break
+
+
 def run_worker(ctx):
     cssutils, _ = core.import_repo()
     parser = cssutils.CSSParser()
@@ -345,12 +501,34 @@ def run_worker(ctx):
         if has_known_feature(stmts):
             continue
         judge_truncation(ctx, cssutils, parser, stmts, ctx.rng('trender', i), all_cuts=(i % 4 == 0))
+    # explicit closing: hand-made texts with several kinds of brackets open, and generated sheets
+    for i, t in ctx.share(MIXED):
+        judge_closing(ctx, cssutils, parser, t)
+    n = 160 if quick else 4000
+    for i in range(n):
+        if not ctx.mine(i):
+            continue
+        rng = ctx.rng('close', i)
+        g = G.Gen(rng, namespaces=False, max_stmts=3)
+        stmts = g.sheet()
+        if has_known_feature(stmts):
+            continue
+        text, feats = G.render2(stmts, G.style_with(rng.choice(['neutral', 'ws-min'])), ctx.rng('crender', i))
+        if feats or len(text) > 500:
+            continue
+        judge_closing(ctx, cssutils, parser, text)
 
 
 def replay(ctx, case):
     cssutils, _ = core.import_repo()
     parser = cssutils.CSSParser()
     core.canonical_state(cssutils)
+    if case.get('kind') == 'closing':
+        a = norm(P.project(parser.parseString(case['prefix'])))
+        b = norm(P.project(parser.parseString(case['prefix'] + case['closers'])))
+        if not closing_equal(a, b):
+            ctx.violation('truncation.closing', case, {'diff': P.diff(a, b)})
+        return
     if case.get('kind') == 'injection':
         from checks.c03 import project_nonempty
 
